@@ -104,6 +104,8 @@ class Smt:
             if len(args) == 1 and t[1] in ("Option::cloned", "Option::copied", "Option::as_ref", "Option::as_mut", "Option::as_deref", "Option.Clone::clone",
                                            "Result::as_ref", "Result.Clone::clone"):
                 self.axioms.append(self.disc(r) == self.disc(args[0]))
+                if t[2][0][0] == "addr":        # ... and a reference to a place has the variant of the place
+                    self.axioms.append(self.disc(r) == self.disc(self.v(t[2][0][1])))
             return r
         if k == "out":
             args = [self.v(a) for a in t[3]]
